@@ -77,10 +77,10 @@ func Sign(dir string, c *tlc.Container) []wsync.BlockHash {
 }
 
 type DiffResult struct {
-	Patch, Sig         []byte
-	Fresh, Reused      int64
-	Source, Target     *tlc.Container
-	TargetSignature    []wsync.BlockHash
+	Patch, Sig      []byte
+	Fresh, Reused   int64
+	Source, Target  *tlc.Container
+	TargetSignature []wsync.BlockHash
 }
 
 func None() *pwr.CompressionSettings {
@@ -88,13 +88,17 @@ func None() *pwr.CompressionSettings {
 }
 
 // Diff produces the patch (old -> new) and the signature of new.
-func Diff(oldDir, newDir string) *DiffResult {
+// (compression: the instance parameter comp, default none - see CodecParam)
+func Diff(oldDir, newDir string) *DiffResult { return DiffC(oldDir, newDir, CodecParam()) }
+
+// DiffC is Diff with the given compression settings for both streams.
+func DiffC(oldDir, newDir string, comp *pwr.CompressionSettings) *DiffResult {
 	target := Walk(oldDir)
 	source := Walk(newDir)
 	tsig := Sign(oldDir, target)
 	var patch, sig bytes.Buffer
 	dctx := &pwr.DiffContext{
-		Compression:     None(),
+		Compression:     comp,
 		Consumer:        Consumer,
 		SourceContainer: source,
 		Pool:            fspool.New(source, newDir),
